@@ -95,6 +95,7 @@ synth_cleanup(void)
         rm_model(SYNTH_DIR);
 }
 
+static int OTHER_CONFIG;
 static decoder_t *
 make_decoder(void)
 {
@@ -107,6 +108,16 @@ make_decoder(void)
     config_set_str(cfg, "loglevel", "FATAL");
     if (MAXHMMPF > 0)
         config_set_int(cfg, "maxhmmpf", MAXHMMPF); /* the cap that makes the search narrow its beams dynamically */
+    if (OTHER_CONFIG) {
+        /* the second decoder of --two 2 is configured DIFFERENTLY from the decoder under test: whatever a decoder reads from its own
+         * configuration must not come from the neighbour's */
+        config_set_int(cfg, "maxhmmpf", 4);
+        config_set_str(cfg, "beam", "1e-30");
+        config_set_str(cfg, "wbeam", "1e-20");
+        config_set_str(cfg, "pbeam", "1e-30");
+        config_set_str(cfg, "wip", "0.3");
+        config_set_str(cfg, "lw", "3.0");
+    }
     {
         /* --cfg key=value,key=value: non-default options */
         char buf[512], *tok, *save = NULL;
@@ -584,6 +595,7 @@ stream_blocks(decoder_t *d, int16 *aud, size_t len)
 }
 
 static char REF_STREAM[DIGN], REF_BATCH[DIGN], REF_SHORT[DIGN];
+static char REF2_STREAM[DIGN], REF2_BATCH[DIGN]; /* --two 2: the differently configured neighbour, alone */
 /* The probe comes in two orders, because whatever runs first meets the state the history left and overwrites it for
  * what follows.  Each order runs on its own copy of the process (fork) and is compared with the same order on a fresh
  * decoder.
@@ -812,8 +824,11 @@ run_hist(const hist_t *h)
     m.g1 = !NOGRAM;
     decoder_t *d2 = NULL;
     int step2 = 0;
-    if (TWO)
+    if (TWO) {
+        OTHER_CONFIG = TWO == 2;
         d2 = make_decoder();
+        OTHER_CONFIG = 0;
+    }
     for (i = 0; i < h->n; i++) {
         if (d2) {
             /* the other decoder's own activity, one step between any two operations */
@@ -950,9 +965,10 @@ run_hist(const hist_t *h)
         if ((step2 % 4) == 1 || (step2 % 4) == 2)
             decoder_end_utt(d2);
         rc = probe(d2, s2, b2, sizeof s2, NOGRAM);
-        if (P_C08 && (rc < 0 || strcmp(s2, REF_STREAM) != 0 || strcmp(b2, REF_BATCH) != 0)) {
-            mc_viol("C08/second-decoder-influenced", cd, "a second decoder used between these operations gives %s | alone: %s", rc < 0 ? "(probe failed)" : strcmp(s2, REF_STREAM) ? s2 : b2,
-                    strcmp(s2, REF_STREAM) ? REF_STREAM : REF_BATCH);
+        const char *rs = TWO == 2 ? REF2_STREAM : REF_STREAM, *rb = TWO == 2 ? REF2_BATCH : REF_BATCH;
+        if (P_C08 && (rc < 0 || strcmp(s2, rs) != 0 || strcmp(b2, rb) != 0)) {
+            mc_viol("C08/second-decoder-influenced", cd, "a second decoder used between these operations gives %s | alone: %s", rc < 0 ? "(probe failed)" : strcmp(s2, rs) ? s2 : b2,
+                    strcmp(s2, rs) ? rs : rb);
             decoder_free(d2);
             goto out;
         }
@@ -1096,7 +1112,51 @@ main(int argc, char **argv)
         atexit(synth_cleanup);
     }
     /* reference digests from a fresh decoder, which is then released */
-    {
+    if (TWO == 2) {
+        /* The reference digests come from a process in which NO other decoder has ever existed (a forked copy made before anything was
+         * decoded here); then the differently configured neighbour is created in this process and decodes FIRST. */
+        char *sh = mmap(NULL, 5 * DIGN, PROT_READ | PROT_WRITE, MAP_SHARED | MAP_ANONYMOUS, -1, 0);
+        pid_t pid;
+        int st = 0;
+        decoder_t *o;
+        sh[0] = 0;
+        fflush(NULL);
+        pid = fork();
+        if (pid == 0) {
+            decoder_t *f = make_decoder();
+            int rc = probe(f, sh, sh + DIGN, DIGN, NOGRAM);
+            decoder_free(f);
+            if (rc >= 0) {
+                f = make_decoder();
+                rc = probe_short(f, sh + 2 * DIGN, DIGN, NOGRAM);
+                decoder_free(f);
+            }
+            if (rc >= 0) {
+                OTHER_CONFIG = 1;
+                f = make_decoder();
+                OTHER_CONFIG = 0;
+                rc = probe(f, sh + 3 * DIGN, sh + 4 * DIGN, DIGN, NOGRAM);
+                decoder_free(f);
+            }
+            _exit(rc < 0 ? 3 : 0);
+        }
+        if (pid < 0 || waitpid(pid, &st, 0) < 0 || !WIFEXITED(st) || WEXITSTATUS(st) != 0) {
+            fprintf(stderr, "reference process failed\n");
+            return 2;
+        }
+        memcpy(REF_STREAM, sh, DIGN);
+        memcpy(REF_BATCH, sh + DIGN, DIGN);
+        memcpy(REF_SHORT, sh + 2 * DIGN, DIGN);
+        memcpy(REF2_STREAM, sh + 3 * DIGN, DIGN);
+        memcpy(REF2_BATCH, sh + 4 * DIGN, DIGN);
+        munmap(sh, 5 * DIGN);
+        OTHER_CONFIG = 1;
+        o = make_decoder();
+        OTHER_CONFIG = 0;
+        if (decoder_start_utt(o) < 0 || decoder_process_int16(o, AUD_ALL, N_ALL, 0, 0) < 0 || decoder_end_utt(o) < 0)
+            return 2;
+        decoder_free(o);
+    } else {
         decoder_t *f = make_decoder();
         int rc = probe(f, REF_STREAM, REF_BATCH, sizeof REF_STREAM, NOGRAM);
         decoder_free(f);
